@@ -19,15 +19,15 @@ CHECKS = {
    text=("Theorems (props/C15.v, closed): for ALL trees (8 node kinds, any depth/arity): == is reflexive, symmetric, transitive; == implies equal hashes for every host hash "
          "function (every PYTHONHASHSEED), equal width and equal value under every valuation/memory/operator interpretation; copy() and visit(identity) return the same tree; "
          "visit(cb) preserves width and value whenever cb does; replace_expr with any map whose keys and images have equal width and value preserves width and value (substitution as congruence). "
-         "canonize's value preservation is NOT yet a theorem (correspondence + value search only). Model tied to expression.py by exact-output correspondence (~48k cases quick)."),
+         "canonize preserves well-formedness, width and value on well-formed trees of fragment 1 (theorem), and is refuted without the one-width condition (the width of an operator node is that of its first operand). Model tied to expression.py by exact-output correspondence (~48k cases quick)."),
    note=TB + "Modelled, not verified: Expr.v (hand transcription of expression.py: __eq__/__hash__/visit/copy/replace_expr/canonize/key_expr). "
         "Object identity ('shares no mutable node') is outside Gallina: checked on the implementation by id()-disjointness. ExprAff's slice-destination constructor sugar is outside the model.",
    design='4/C15'),
  'C16': dict(
    technique='Coq proof by structural induction (coincidence lemma for get_r) about the Gallina model of expression.py + exact-output correspondence incl. call-history cases',
    text=("Theorems (props/C16.v, closed): coincidence — for ALL trees, if two states agree on every identifier and memory cell reported by get_r (both mem_read modes) the value is the same in both; "
-         "get_w of an assignment names its destination. MatchExpr soundness is NOT yet a theorem: it is decided by exact-output correspondence of the model of MatchExpr (three return conventions) "
-         "plus substitution of the returned bindings on the implementation (instances, single-feature mutants, patterns whose expression contains wildcards)."),
+         "get_w of an assignment names its destination. MatchExpr soundness (props/C16.v, closed): whenever the model of MatchExpr does not return False the returned dictionary keeps every earlier binding and the matched expression is the pattern with each wildcard replaced by its binding, for ALL expressions, patterns, wildcard lists and initial dictionaries, through the three return conventions. "
+         "The model is tied by exact-output correspondence plus substitution of the returned bindings on the implementation (instances, single-feature mutants, patterns whose expression contains wildcards)."),
    note=TB + "Modelled, not verified: Expr.v (get_r/get_w/get_expr_ids/MatchExpr/test_set).",
    design='4/C16'),
  'C05': dict(
@@ -40,10 +40,11 @@ CHECKS = {
    note=TB + "Modelled, not verified: Simp.v is a hand transcription of expression_helper.py (tied by exact-tree correspondence on every run). Outside fragment 1 the property is decided by the tie + search, below proof strength.",
    design='4/C05', category='other'),
  'C13': dict(
-   technique='Gallina model of expr_simp tied by exact-tree correspondence under several PYTHONHASHSEED values; idempotence and order-insensitivity evaluated on groups of permuted/re-associated spellings',
+   technique='Coq theorems on the simplifier model (root-level fixpoint of the rewriting step for all trees, sort is a permutation, order-independence of the value, fuel independence) + exact-tree correspondence under several PYTHONHASHSEED values; idempotence and order-insensitivity evaluated on groups of permuted/re-associated spellings',
    text=("The model (a pure function: no hash-order input) is compared with expr_simp under PYTHONHASHSEED 0,1,2 (quick) / 0..15 (thorough) on groups of expressions differing only by order/nesting of "
-         "+ * ^ & | operands (rule families, random trees, multisets of atoms, deep twins that differ only far down), each simplified once and twice. Universal theorems (idempotence via a stability "
-         "invariant, permutation invariance of the sort) are work in progress and not yet claimed."),
+         "+ * ^ & | operands (rule families, random trees, multisets of atoms, deep twins that differ only far down), each simplified once and twice. Theorems (props/C13.v, closed): for ALL trees every result of the simplifier is a fixpoint of its rewriting step at the root (one more _expr_simp returns an == expression); "
+         "the canonical operand order is a permutation of the input; on well-formed trees operand order does not change the value of the result; successful runs agree whatever their fuel. "
+         "NOT proved: idempotence below the root, syntactic identity of the results for permuted/re-associated operands, hash-seed independence (implementation facts): decided by the runs."),
    note=TB + "Cross-process behaviour (hash seeds) is a runtime fact outside Gallina: exercised by running the implementation under each seed. dump_mem() ordering (ExprMem.__lt__ compares id()) is not covered.",
    design='4/C13', category='other'),
  'C06': dict(
